@@ -12,7 +12,7 @@ import traceback
 from pathlib import Path
 
 VERIF = Path("/verif")
-REPO = Path("/repo")
+REPO = Path(os.environ.get("VERIF_REPO", "/repo"))  # VERIF_REPO: evaluate a scratch worktree (seeded changes) without touching /repo
 WORK = VERIF / ".work"
 EVID = VERIF / "evidence"
 REPLAYS = VERIF / "replays"
